@@ -9,6 +9,8 @@
 (*  Cross   : -l differs from -r, records carry an ordinary field named    *)
 (*            like the other side's join field; every pair of lists of at  *)
 (*            most MaxLen3 records                                          *)
+(*  Escape  : join values holding comma / backslash; every pair of lists of *)
+(*            at most MaxLen3 + 1 records                                    *)
 (* MainU, MainS and Two take every pair of lists in which at least one list *)
 (* is shorter than the longest length, and of the pairs of two longest      *)
 (* lists either all (NLong.. = 0) or NLongU / NLongS / NLong2 (per          *)
@@ -46,6 +48,7 @@ Init == \/ (On(1) /\ PartU)
         \/ (On(4) /\ \E c \in Configs2 : (Part2(c) \/ PartLong2(c)))
         \/ (On(5) /\ PartSampled)
         \/ (On(6) /\ \E c \in Configs3 : \E l \in Lefts3(c, MaxLen3), r \in Rights3(c, MaxLen3) : x = CaseX(c, l, r))
+        \/ (On(7) /\ \E c \in Configs4 : \E l \in Lefts4(c, MaxLen3 + 1), r \in Rights4(c, MaxLen3 + 1) : x = Case(c, l, r))
 Next == UNCHANGED x
 Emit == PrintT(ToJson(x))
 =============================================================================
